@@ -20,7 +20,9 @@ ASSUMPTIONS = ["for dicts only the construction method is varied: insertion orde
                "black absence is simulated by a project-local black.py that raises ImportError in the cold interpreter"]
 TASK_TIMEOUT = 1200
 
-ELEMS_Q = ['"a"', "1", "None", '(1, "a")', "(1, None)", 'frozenset({"a"})', 'frozenset({"b"})', 'frozenset({"a", "b"})', 'frozenset({"c", "a"})']
+ELEMS_Q = ['"a"', "1", "None", '(1, "a")', "(1, None)", 'frozenset({"a"})', 'frozenset({"b"})', 'frozenset({"a", "b"})', 'frozenset({"c", "a"})',
+           # partially ordered without being frozensets themselves: tuples that wrap incomparable frozensets
+           '(frozenset({"a", "d"}), 1)', '(frozenset({"b", "c"}), 2)']
 ELEMS_T = ELEMS_Q + ['"b"', "2", "1.5", 'frozenset({"a", 1})', "(2,)"]
 
 
@@ -36,6 +38,8 @@ def _sites(tier):
     sites = []
     for k in range(0, K + 1):
         for comb in itertools.combinations(E, k):
+            if tier == "quick" and k == 3 and sum(1 for c in comb if c.startswith("(frozenset")) == 1:
+                continue  # the tuple-wrapped frozensets: all pairs, and triples only when both are present
             if k == 4 and tier != "quick" and sum(1 for c in comb if "frozenset" in c or "(" in c) < 3:
                 continue
             key = "set:" + "|".join(sorted(comb))
@@ -61,6 +65,10 @@ def _sites(tier):
                 st = "{%s}" % ", ".join(perm) if perm else "set()"
                 sites.append(("dict:" + key, ["v = {'k': %s, 'j': frozenset([%s])}" % (st, ", ".join(perm))]))
                 sites.append(("list:" + key, ["v = [%s, (%s,)]" % (st, st)]))
+                if len(comb) >= 2:
+                    # dict subclasses holding the set (their own repr() would show the set in hash order)
+                    sites.append(("odict:" + key, ["v = OrderedDict([('k', %s), ('j', [frozenset([%s])])])" % (st, ", ".join(perm))]))
+                    sites.append(("counterkey:" + key, ["v = Counter({frozenset([%s]): 2})" % ", ".join(perm)]))
     # an existing dict snapshot compared with dicts that hold the same keys in every insertion order (one value differs):
     # the fixed text must not depend on the order in which the observed dict was built
     base = {"a": "1", "b": "0", "c": "[3]"}
@@ -79,7 +87,7 @@ def _sites(tier):
 
 
 def _file(sites):
-    out = ["from inline_snapshot import snapshot\nfrom dataclasses import dataclass\n\n\n@dataclass\nclass DCK:\n    a: int\n    b: int\n\n\nclass BadRepr:\n    def __eq__(self, other):\n        return True if isinstance(other, BadRepr) else NotImplemented\n    def __repr__(self):\n        raise RuntimeError('no repr')\n\n\n"
+    out = ["from inline_snapshot import snapshot\nfrom dataclasses import dataclass\nfrom collections import OrderedDict, Counter\n\n\n@dataclass\nclass DCK:\n    a: int\n    b: int\n\n\nclass BadRepr:\n    def __eq__(self, other):\n        return True if isinstance(other, BadRepr) else NotImplemented\n    def __repr__(self):\n        raise RuntimeError('no repr')\n\n\n"
            "def test_000_bad_repr():\n    try:\n        assert BadRepr() == snapshot(1)\n    except Exception:\n        pass\n\n"]
     G = 25  # sites per test function: keeps pytest's per-test overhead out of the cold processes
     for g in range(0, len(sites), G):
